@@ -14,7 +14,8 @@ RULE = ("seeded random programs: 1-6 classes in hierarchies of depth 1-5 (single
         "own or inherited __init__, overridable methods), 0-3 functions; bodies of kwargs.pop/get and at most one forwarding "
         "call (super().__init__, the two-argument super(C, self).__init__ incl. non-immediate C, function, class, self.method; "
         "for some __init__ bodies written in the attribute form self._kw = kwargs + a consuming method in the class or an "
-        "ancestor) with positional and hard-coded keyword arguments; names from "
+        "ancestor) with positional and hard-coded keyword arguments, some of them written after the ** unpacking "
+        "(f(a=0, **kwargs, b=0)); a suffix of the parameters of some callables is keyword-only (def f(a, *, b=1, **kwargs)); names from "
         "small pools so that collisions happen; programs that cannot be called successfully at all are discarded. Each "
         "program is written to real source files (four in ten split over two modules: a library with the first top-level items "
         "and a module with the rest that imports only the names its own text uses), resolved with get_signature_parameters and add_class_arguments, and "
@@ -29,6 +30,7 @@ TRUSTED = [
     "semantics coq/Spec/KwargsSpec.v (CPython keyword binding), each tied by per-case agreement evaluated inside Coq",
 ]
 ASSUMPTIONS = [
+    "keyword-only parameters come after the positional-or-keyword ones (as Python requires); no positional-only parameters",
     "history: only resolutions of other callables of the SAME program earlier in the same process (get_signature_parameters "
     "on up to four of them, any order) are exercised; state carried over from other programs, threads, or parser objects is not",
     "programs live in one or two modules; the second imports from the first only the names its own text uses; programs with "
@@ -79,7 +81,11 @@ def call_text(s, kwname):
               "meth": "self.m%s"}[callee[0]]
     if callee[0] != "super":
         target = target % callee[1]
-    return "%s(%s)" % (target, ", ".join(["0"] * npos + ["%s=0" % g for g in given] + ["**" + kwname]))
+    # legal Python: keywords may also be written AFTER the ** unpacking, f(0, a=0, **kwargs, b=0); same meaning
+    after = s[4].get("after", 0) if len(s) > 4 and s[4] else 0
+    before = given[:len(given) - after] if after else given
+    return "%s(%s)" % (target, ", ".join(["0"] * npos + ["%s=0" % g for g in before] + ["**" + kwname]
+                                         + ["%s=0" % g for g in given[len(before):]]))
 
 
 def attr_host(s, cls_idx):
@@ -99,10 +105,17 @@ def consumers(prog):
     return res
 
 
+def kwo(p):
+    """parameter declared keyword-only (after a bare `*`); keyword-only parameters come last"""
+    return len(p) > 3 and bool(p[3])
+
+
 def render_fn(name, fn, method, cls_idx=None):
-    ps = (["self"] if method else []) + [
-        "%s: %s" % (n, TY[t]) + ("" if d is None else " = " + lit(*d)) for n, t, d in fn["params"]
-    ]
+    ps = ["self"] if method else []
+    for p in fn["params"]:
+        if kwo(p) and "*" not in ps:
+            ps.append("*")
+        ps.append("%s: %s" % (p[0], TY[p[1]]) + ("" if p[2] is None else " = " + lit(*p[2])))
     if fn["kw"]:
         ps.append("**kwargs")
     ind = "        " if method else "    "
@@ -160,7 +173,7 @@ def _refs(prog, items):
                 fns.append({"body": [st[:4]]})
     for fn in fns:
         for s in fn["body"]:
-            if s[0] == "call" and len(s) > 4 and s[4]:
+            if s[0] == "call" and attr_host(s, None) is not None:
                 continue  # written in the hosting class
             if s[0] == "call" and s[1][0] in ("func", "class", "superof"):
                 names.append(("f%d" if s[1][0] == "func" else "C%d") % s[1][1])
@@ -188,8 +201,9 @@ def sources(case):
 
 
 def g_fn(fn):
-    ps = g_list(["{| sp_name := %s; sp_ty := %s; sp_def := %s |}" % (g_str(n), g_N(t), "DReq" if d is None else "DVal %s %s" % (g_N(d[0]), g_Z(d[1])))
-                 for n, t, d in fn["params"]], "sparam")
+    ps = g_list(["{| sp_name := %s; sp_ty := %s; sp_def := %s; sp_kwonly := %s |}" % (
+        g_str(p[0]), g_N(p[1]), "DReq" if p[2] is None else "DVal %s %s" % (g_N(p[2][0]), g_Z(p[2][1])), g_bool(kwo(p)))
+                 for p in fn["params"]], "sparam")
     body = []
     for s in fn["body"]:
         if s[0] == "pg":
@@ -330,7 +344,7 @@ def visible_params(prog, callee, cls_idx, cache):
         mro = py_mro(prog, cls_idx, cache)
         ctx = (mro, 0) if mro else None
     tgt = target_fn(callee, ctx)
-    return (deep(tgt[0], 0, tgt[1]), len(tgt[0]["params"])) if tgt else ([], 0)
+    return (deep(tgt[0], 0, tgt[1]), len([p for p in tgt[0]["params"] if not kwo(p)])) if tgt else ([], 0)
 
 
 def gen_params(rng, nmax):
@@ -669,7 +683,7 @@ def attrify(rng, prog):
         if init is None or not init["kw"] or not init["body"] or i in inner:
             continue
         s = init["body"][-1]
-        if s[0] != "call" or s[1][0] not in ("func", "class", "meth") or len(s) > 4:
+        if s[0] != "call" or s[1][0] not in ("func", "class", "meth") or attr_host(s, i) is not None:
             continue
         if set(s[3]) & {t[2] for t in init["body"] if t[0] == "pg"} or rng.random() < 0.5:
             continue
@@ -677,7 +691,38 @@ def attrify(rng, prog):
         for h in (py_mro(prog, i, cache) or [i])[1:]:
             if s[1][0] == "meth" or pos[("f" if s[1][0] == "func" else "c", s[1][1])] < pos[("c", h)]:
                 hosts.append(h)
-        s.append({"attr": rng.choice(hosts) if rng.random() < 0.6 else i})
+        host = rng.choice(hosts) if rng.random() < 0.6 else i
+        if len(s) > 4:
+            s[4] = dict(s[4] or {}, attr=host)
+        else:
+            s.append({"attr": host})
+
+
+def all_fns(prog):
+    fns = list(prog["funcs"])
+    for c in prog["classes"]:
+        fns += ([c["init"]] if c["init"] is not None else []) + [f for _, f in c["meths"]]
+    return fns
+
+
+def kwonlyfy(rng, prog):
+    """Declare a suffix of the parameters of some callables keyword-only (def f(a, *, b, c=1, **kwargs))."""
+    for fn in all_fns(prog):
+        if fn["params"] and rng.random() < 0.3:
+            k = rng.randrange(len(fn["params"]))
+            fn["params"] = [p[:3] + [i >= k] for i, p in enumerate(fn["params"])]
+
+
+def afterfy(rng, prog):
+    """Write the last k hard-coded keywords of some forwarding calls after the ** unpacking."""
+    for fn in all_fns(prog):
+        for s in fn["body"]:
+            if s[0] == "call" and s[3] and rng.random() < 0.3:
+                k = rng.randint(1, len(s[3]))
+                if len(s) > 4:
+                    s[4] = dict(s[4] or {}, after=k)
+                else:
+                    s.append({"after": k})
 
 
 def has_superof(prog):
@@ -811,6 +856,10 @@ def generate(rng, tier):
             superofy(rng, prog)
         if rng.random() < 0.3:
             attrify(rng, prog)
+        if rng.random() < 0.4:
+            kwonlyfy(rng, prog)
+        if rng.random() < 0.5:
+            afterfy(rng, prog)
         n = len(prog["classes"])
         targets = [n - 1] + ([rng.randrange(n)] if n > 1 and rng.random() < 0.3 else [])
         for t in dict.fromkeys(targets):
@@ -965,7 +1014,7 @@ META = {
     "level_text": "Proved in Rocq for every program of a DSL of Python sources (class hierarchies of any depth and width with C3 "
                   "linearisation, own or inherited __init__, functions, methods; bodies of kwargs.pop/get and one forwarding call "
                   "super().__init__ / super(C, self).__init__ (own or non-immediate class) / f / C / self.m with positional and "
-                  "hard-coded keyword arguments), by induction on the call-chain "
+                  "hard-coded keyword arguments; parameters may be declared keyword-only), by induction on the call-chain "
                   "fuel, relating two executable semantics: the resolver's algorithm (coq/Model/Kwargs.v, written in the shape of "
                   "_parameter_resolvers.py, bugs included) and CPython's keyword binding (coq/Spec/KwargsSpec.v). "
                   "C13_resolver_sound(_frame): under the executable hypothesis klass_top = 0, calling the class with any duplicate-free "
